@@ -175,6 +175,9 @@ func (fr *Frame) call(st *State, cc *ssa.CallCommon, pos token.Pos) (*Val, *Stat
 			}
 		}
 	}
+	if !fr.Top && c.noObligations == 0 {
+		fr.deferAtCalls(st, cc, name, args, pos)
+	}
 	// library models
 	if m, ok := libModels[name]; ok {
 		c.AssumedLib[name] = true
@@ -1321,4 +1324,51 @@ func knownConst(r, t *Term, depth int) *big.Int {
 		}
 	}
 	return nil
+}
+
+// deferAtCalls: a call inside a helper that is executed inline on behalf of the function under contract. If that function's
+// contract has an at-call clause for this callee, the assertion is evaluated here (over the top function's variables and this
+// call's arguments) and kept aside; it is used only if the top function itself never calls the callee - the case of a call
+// that an edit moved into a helper - instead of reporting the clause as having no call site.
+func (fr *Frame) deferAtCalls(st *State, cc *ssa.CallCommon, name string, args []*Val, pos token.Pos) {
+	var tf *Frame
+	for f := fr.Parent; f != nil; f = f.Parent {
+		if f.Top {
+			tf = f
+		}
+	}
+	if tf == nil || tf.Con == nil || len(tf.Con.AtCalls) == 0 {
+		return
+	}
+	c := fr.C
+	for i, ac := range tf.Con.AtCalls {
+		if ac.Ordinal != 0 || !(strings.HasSuffix(name, "."+ac.Callee) || strings.HasSuffix(name, ")."+ac.Callee) || name == ac.Callee) {
+			continue
+		}
+		func() {
+			defer func() {
+				tf.midEval = false
+				recover() // a clause that cannot be evaluated here (a variable out of scope) is simply not deferred
+			}()
+			tf.midEval = true
+			aenv := map[string]*Val{}
+			for k, v := range tf.envTop {
+				aenv[k] = v
+			}
+			for ai, av := range args {
+				aenv[fmt.Sprintf("arg%d", ai)] = av
+			}
+			g := tf.evalBool(ac.Clause.Expr, st, tf.Entry, aenv)
+			ob := &Obligation{Name: c.curFunc + "#at-call/" + ac.Callee + "." + clauseName("", ac.Clause, i) + "@via:" + fr.Fn.Name(), Kind: "at-call", Func: c.curFunc,
+				Hyps: append([]*Term(nil), globalFacts...), Reach: st.R, Goal: g, Desc: "at every call to " + ac.Callee + " (reached through the helper " + fr.Fn.Name() + "): " + ac.Clause.Src, Inputs: c.Inputs, Fn: tf.Fn, Con: tf.Con}
+			if pos.IsValid() {
+				p := c.P.Fset.Position(pos)
+				ob.Pos = fmt.Sprintf("%s:%d", strings.TrimPrefix(p.Filename, c.P.RepoDir+"/"), p.Line)
+			}
+			if tf.deferredAt == nil {
+				tf.deferredAt = map[int][]*Obligation{}
+			}
+			tf.deferredAt[i] = append(tf.deferredAt[i], ob)
+		}()
+	}
 }
